@@ -145,6 +145,9 @@ impl RustDocument {
         }
 
         if WELL_KNOWN_NAMESPACES.contains(&url) {
+            // no module stands for such a namespace; a prefix (or the default namespace) that an outer element bound
+            // to another namespace means this one from here on, though
+            self.namespace_lookup.remove(original_abbreviation);
             return;
         }
 
